@@ -60,10 +60,12 @@ def regexpp(regex: Any) -> str:
     if result.endswith("\\") and (len(result) - len(result.rstrip("\\"))) % 2 != 0:
         result += "\\"
 
+    # NOTE: a quote needs a backslash unless an ODD number of backslashes precedes it
+    #   (after an even number the backslashes escape each other, not the quote)
     if result.endswith("'") or result.count("'") > result.count('"'):
-        output = f'r"{re.sub(r'(?<!\\)"', r"\"", result)}"'
+        output = f'r"{re.sub(r'(?<!\\)((?:\\\\)*)"', r'\1\\"', result)}"'
     else:
-        output = f"r'{re.sub(r"(?<!\\)'", r"\'", result)}'"
+        output = f"r'{re.sub(r"(?<!\\)((?:\\\\)*)'", r"\1\\'", result)}'"
 
     try:
         evaluated = eval(output)  # noqa: S307
